@@ -7,6 +7,8 @@
 #include "codec.hpp"
 #include "simclock.hpp"
 #include <tins/tins.h>
+#include <tins/pdu_cacher.h>
+#include <tins/loopback.h>
 #include <sys/socket.h>
 #include <sys/select.h>
 #include <netinet/in.h>
@@ -335,6 +337,22 @@ struct SockEngine : Engine {
                     st.inc("chk.direct_match");
                     if (got != (labels[in.idx] != 0)) return Verdict::bad(std::string(got ? "sock:stranger-accepted:" : "sock:mirror-rejected:") + perts[in.idx].substr(0, perts[in.idx].find(':')) + ":direct", fmt("matches_response called directly on the freshly built (never serialized) request says %d for frame '%s', expected %d", got, perts[in.idx].c_str(), labels[in.idx]), stepno);
                 }
+            }
+            // third sentence of the property: for every layer class and every buffer length, including zero, the matcher reads only inside the buffer.
+            // Every frame the simulated network delivers is also cut at short and at arbitrary lengths (a short read), copied into a heap block of
+            // exactly that size and put to the matcher of the request, of each of its layers, and of one object of every other class that has a matcher;
+            // the address sanitizer is the judge
+            if ((q.ipid & 7) == 0) {
+                std::vector<std::unique_ptr<Tins::PDU> > objs; for (Tins::PDU* l = req.get(); l; l = l->inner_pdu()) objs.emplace_back(l->clone());
+                objs.emplace_back(new Tins::RadioTap()); { Tins::RadioTap* rt = new Tins::RadioTap(); rt->inner_pdu(Tins::Dot11Data()); objs.emplace_back(rt); } objs.emplace_back(new Tins::Dot3()); { Tins::Dot3* d3 = new Tins::Dot3(); d3->inner_pdu(Tins::LLC()); objs.emplace_back(d3); }
+                objs.emplace_back(new Tins::Loopback()); { Tins::Loopback* lo = new Tins::Loopback(); lo->inner_pdu(Tins::IP()); objs.emplace_back(lo); } objs.emplace_back(new Tins::RawPDU("abc")); objs.emplace_back(new Tins::ARP()); objs.emplace_back(new Tins::BootP()); objs.emplace_back(new Tins::DHCP()); objs.emplace_back(new Tins::DHCPv6()); objs.emplace_back(new Tins::DNS());
+                objs.emplace_back(new Tins::ICMP()); objs.emplace_back(new Tins::ICMPv6()); objs.emplace_back(new Tins::TCP()); objs.emplace_back(new Tins::UDP()); objs.emplace_back(new Tins::IP()); objs.emplace_back(new Tins::IPv6()); objs.emplace_back(new Tins::EthernetII()); objs.emplace_back(new Tins::Dot1Q());
+                { Tins::PDUCacher<Tins::IP>* pc = new Tins::PDUCacher<Tins::IP>(Tins::IP("10.0.0.1", "10.0.0.2") / Tins::UDP(1, 2)); objs.emplace_back(pc); }
+                for (auto& in : simnet::inbound) { const Bytes& f = in.frame; uint64_t hsh = fnv1a(f.data(), f.size());
+                    size_t lens[12] = { 0, 1, 2, 3, 4, 7, 8, 9, f.size(), f.size() ? hsh % f.size() : 0, f.size() ? (hsh >> 16) % f.size() : 0, f.size() > 14 ? 14 + (hsh >> 32) % (f.size() - 14) : 0 };
+                    for (size_t li = 0; li < 12; ++li) { size_t n = std::min(lens[li], f.size()); uint8_t* buf = (uint8_t*)malloc(n ? n : 1); if (n) memcpy(buf, f.data(), n); uint8_t* view = n ? buf : buf + 1;      /* n == 0: one past the block, any read is out of bounds */
+                        for (auto& o : objs) { try { (void)o->matches_response(view, (uint32_t)n); } catch (Tins::exception_base&) {} st.inc("chk.matcher_memory_safety"); }
+                        free(buf); } }
             }
             // L3 sockets: a frame with a VLAN tag or cut inside the Ethernet header is not an IP datagram for us
             sim::g_sim_now_us = start; sim::g_sim_tick_us = 0; simnet::active = true;
